@@ -171,6 +171,8 @@ impl GLM {
 
         loop {
             // println!("{} {:?}", n_iter, coef);
+            #[cfg(feature = "verif-hooks")]
+            crate::verif_hooks::tick(crate::verif_hooks::Site::GlmIter);
             eta = matmul(x, &coef, n, p, false, false);
             if let Some(offset) = &self.offsets {
                 assert_eq!(offset.len(), n, "wrong number of offsets");
